@@ -447,6 +447,60 @@ class Exec:
         walk(0, ({}, {}, {}, []), None, frozenset())
         return out
 
+    def early_returns(self, f, argvals, headers):
+        """assumptions under which the function returns without entering any pixel loop: [(assumptions, touched)] where touched says
+        that a call the vocabulary does not model (fill, blt, another routine) was made on the way"""
+        out = []
+        limit = [0]
+
+        def walk(b, state, prev, visited):
+            limit[0] += 1
+            if limit[0] > 300 or b in headers:
+                return
+            env, mem, assum, touched = state
+            env = dict(env); mem = dict(mem); assum = dict(assum)
+            self.f = f; self.env = env; self.mem = mem; self.argvals = argvals; self.writes = []; self.assum = assum
+            blk = f.blocks[b]
+            for x in blk.insts:
+                if x.op == 'phi':
+                    for a, bb in zip(x.a, x.d['bb']):
+                        if bb == prev:
+                            env[x.i] = self.val(a)
+                    continue
+                if x.op == 'ret':
+                    out.append((assum, touched or bool(self.writes))); return
+                if x.op in ('br', 'switch', 'unreachable'):
+                    break
+                try:
+                    self.step(x)
+                except Unknown:
+                    env[x.i] = None
+                    if x.op == 'call' and not (isinstance(x.callee, str) and (x.callee.startswith('llvm.') or x.callee in ('_pixman_log_error',))):
+                        touched = True
+                self.f = f; self.env = env; self.mem = mem; self.argvals = argvals; self.assum = assum
+            t = blk.term
+            if t.op == 'br' and t.a:
+                try:
+                    dec = self.decide(t)
+                except Unknown:
+                    dec = None
+                for sidx, s_ in enumerate(t.d['succ']):
+                    if dec is not None and dec[0] == 'const' and (sidx == 0) != dec[1]:
+                        continue
+                    a2 = dict(assum)
+                    if dec is not None and dec[0] == 'assume':
+                        a2.update((dec[1] if sidx == 0 else dec[2]) or {})
+                    if (b, s_) in visited:
+                        continue
+                    walk(s_, (env, mem, a2, touched), b, visited | {(b, s_)})
+                return
+            for s_ in blk.succ:
+                if (b, s_) not in visited:
+                    walk(s_, (env, mem, assum, touched), b, visited | {(b, s_)})
+
+        walk(0, ({}, {}, {}, False), None, frozenset())
+        return out
+
     def _next(self, f, s_, b, state, visited, region, results, walk):
         env, mem, assum, writes, notes = state
         if region is not None and s_ == self.loop_header:
@@ -1365,6 +1419,23 @@ def r10_composite_bodies(ck, P):
                         nloops += 1
                 if nloops == 0:
                     raise Unknown('no loop writes the destination')
+                # returns taken before any pixel loop under a condition on the solid source/mask: the destination stays as it was
+                ex = RExec(P, u, voc, has_mask); ex.loop_header = None; ex.combiner_ops = comb_ops; ex.base = base; ex.mask_bits = False
+                ex.solid_syms = ({S, SA} if e['src_format'] == solid else set()) | ({M, MA} if msk_fmt == solid else set())
+                for assum, touched in ex.early_returns(f, [None, None], {L['header'] for L in loops.get(fn, [])}):
+                    a_in = {k: v for k, v in assum.items() if getattr(k, 'free_symbols', set()) and getattr(k, 'free_symbols', set()) <= ex.solid_syms}
+                    if not a_in or touched:
+                        continue
+                    sub = dict(base); sub.update(a_in)
+                    if proj:
+                        ch = [proj]
+                    elif dst_noalpha:
+                        ch = [{ACH: 0}]
+                    else:
+                        ch = [{ACH: 0}, ALPHA]
+                    pairs = [(sympy.expand(D).subs(c_, simultaneous=True), sympy.expand(Es).subs(c_, simultaneous=True)) for c_ in ch]
+                    if not all(vanishes(g_ - w_, sub) or _saturated(g_, w_, sub) for g_, w_ in pairs):
+                        probs.append('%s returns before its pixel loops when %s, leaving the destination unchanged; %s%s then requires %s' % (fn, _asm(a_in), opname, ' with a unified mask' if has_mask and not ca else '', sympy.expand(Es.subs(ACH, 0))))
             except Unknown as ex_:
                 done[key] = 'skip'; skipped[str(ex_)[:70]] += 1; skipped_fns.setdefault(str(ex_)[:70], []).append(fn)
                 continue
